@@ -146,6 +146,14 @@ class NotANode(object):
     pass
 
 
+class NotANodeWithParent(object):
+    """not a tree node, although it has a (read-only) `parent` attribute - like a pathlib path"""
+
+    @property
+    def parent(self):
+        return None
+
+
 def value(v, nodes):
     if v is None:
         return None
@@ -153,6 +161,8 @@ def value(v, nodes):
         return NotANode()
     if v == "other0":
         return 0             # a falsy non-node
+    if v == "otherp":
+        return NotANodeWithParent()
     return nodes[v]
 
 
